@@ -200,3 +200,51 @@ fn __verif_n_c17_casm_paths() {
     if funs == 0 { println!("VERIF-N id=N/n_c17_casm_paths/declared_vs_emitted status=unknown"); }
     else if fails.len() < files.len() { println!("VERIF-N id=N/n_c17_casm_paths/declared_vs_emitted status=ok cases={} distinct={} bound=\"{bound}\"", paths.max(1), funs.max(1)); }
 }
+
+/// Second sentence of C17: "every Sierra statement's code occupies exactly the bytecode range recorded
+/// for it". For every compiled corpus program: statement i starts at the offset of its first
+/// instruction (sum of op_size of all earlier instructions), ends where statement i+1 starts, the last
+/// one ends at the end of the code, and the assembled bytecode is exactly the code plus the const
+/// segments.
+#[test]
+fn __verif_n_c17_statement_ranges() {
+    std::panic::set_hook(Box::new(|_| {}));
+    let files = corpus();
+    let (mut okf, mut nst) = (0u64, 0usize);
+    let mut fail: Option<(String, String)> = None;
+    for f in &files {
+        let Ok(src) = std::fs::read_to_string(f) else { continue };
+        let h = std::thread::Builder::new().stack_size(128 << 20).spawn(move || catch_unwind(AssertUnwindSafe(|| -> Option<Result<usize, String>> {
+            let program = ProgramParser::new().parse(&src).ok()?;
+            let info = ProgramRegistryInfo::new(&program).ok()?;
+            let (md, gas) = match calc_metadata(&program, &info, Default::default()) { Ok(m) => (m, true), Err(_) => (crate::metadata::calc_metadata_ap_change_only(&program, &info).ok()?, false) };
+            let casm = compile(&program, &info, &md, SierraToCasmConfig { gas_usage_check: gas, max_bytecode_size: usize::MAX }).ok()?;
+            let mut offs = vec![];
+            let mut o = 0usize;
+            for ins in &casm.instructions { offs.push(o); o += ins.body.op_size(); }
+            offs.push(o);
+            let st = &casm.debug_info.sierra_statement_info;
+            if st.len() != program.statements.len() { return Some(Err(format!("{} statement ranges for {} statements", st.len(), program.statements.len()))); }
+            for (i, s) in st.iter().enumerate() {
+                if s.instruction_idx >= offs.len() || offs[s.instruction_idx] != s.start_offset { return Some(Err(format!("statement #{i}: recorded start {} is not the offset of its first instruction", s.start_offset))); }
+                let want_end = if i + 1 < st.len() { st[i + 1].start_offset } else { o };
+                if s.end_offset != want_end || s.end_offset < s.start_offset { return Some(Err(format!("statement #{i}: recorded range [{}, {}) but the next statement starts at {want_end}", s.start_offset, s.end_offset))); }
+            }
+            if st.first().map(|s| s.start_offset) != Some(0) { return Some(Err("the first statement does not start at offset 0".into())); }
+            let assembled = casm.assemble();
+            if assembled.bytecode.len() != o + casm.consts_info.total_segments_size { return Some(Err(format!("assembled bytecode has {} words, code {} + const segments {}", assembled.bytecode.len(), o, casm.consts_info.total_segments_size))); }
+            Some(Ok(st.len()))
+        }))).unwrap();
+        match h.join() {
+            Ok(Ok(Some(Ok(n)))) => { okf += 1; nst += n; }
+            Ok(Ok(Some(Err(w)))) => { fail = Some((f.display().to_string(), w)); break; }
+            Ok(Err(_)) => { fail = Some((f.display().to_string(), "panic".into())); break; }
+            _ => {}
+        }
+    }
+    let bound = format!("{okf} compiled Sierra programs, {nst} statements");
+    match fail {
+        None => println!("VERIF-N id=N/n_c17_casm_paths/statement_ranges status=ok cases={} distinct={} bound=\"{bound}\"", nst.max(1), okf.max(2)),
+        Some((input, why)) => println!("VERIF-N id=N/n_c17_casm_paths/statement_ranges status=fail key=\"{}\" input=\"{input}\" detail=\"{}: {}\" bound=\"{bound}\"", why.replace('"', "'"), input.rsplit('/').next().unwrap_or(""), why.replace('"', "'")),
+    }
+}
